@@ -264,7 +264,7 @@ const transmitTimeout = 500 * time.Millisecond
 
 func (w *world) opts(id string) hcluster.Options {
 	dir := filepath.Join(w.cl.Base, id)
-	return hcluster.Options{ID: id, Dir: dir, HeartbeatTimeout: 500 * time.Millisecond, ElectionTimeout: 500 * time.Millisecond, LeaderLease: 400 * time.Millisecond,
+	return hcluster.Options{ID: id, Dir: dir, HeartbeatTimeout: time.Second, ElectionTimeout: time.Second, LeaderLease: 800 * time.Millisecond,
 		NoSnapshotOnClose: true, SnapshotThreshold: 20, SnapshotInterval: 300 * time.Millisecond,
 		Tune: func(st *store.Store) {
 			w.mu.Lock()
@@ -345,17 +345,32 @@ func (w *world) addNode(id string) (*hcluster.Node, error) {
 }
 
 // restart emulates a crash/restart of one node: it is cut off first (so that
-// nothing is applied while its CDC service is being stopped), the CDC service
-// is stopped (releases fifo.db), the node is closed without a snapshot and
-// reopened on the same directory with a new CDC service instance.
+// nothing is being applied), the node is closed without a snapshot, its CDC
+// service is stopped (releases fifo.db), and the node is reopened on the same
+// directory with a new CDC service instance. (The store is closed before the
+// service because cdc.Service.Stop can block for ever when a snapshot-sync
+// request races with it: writeToBatcher sits in batcher.Flush() once mainLoop
+// has gone. A real crash stops both at once.)
 func (w *world) restart(n *hcluster.Node) error {
 	w.cl.Net.Isolate(n.Name, w.cl.Names())
 	time.Sleep(150 * time.Millisecond)
 	w.mu.Lock()
 	old := w.cdc[n.Name]
 	w.mu.Unlock()
+	n.Store.NoSnapshotOnClose = true
+	if err := n.Close(); err != nil {
+		w.cl.Net.HealAll()
+		return fmt.Errorf("close: %w", err)
+	}
 	if old != nil {
-		old.svc.Stop()
+		done := make(chan struct{})
+		go func() { old.svc.Stop(); close(done) }()
+		select {
+		case <-done:
+		case <-time.After(30 * time.Second):
+			w.cl.Net.HealAll()
+			return fmt.Errorf("cdc.Service.Stop of %s did not return within 30 s", n.Name)
+		}
 	}
 	nn, err := w.cl.Restart(n)
 	if err != nil {
